@@ -138,15 +138,24 @@ func c03GlobNear(r *RNG, base string) string {
 	}
 }
 
-func c03GenTextCase(r *RNG, i int) *c03TextCase {
+func c03GenTextCase(r, rq *RNG, i int) *c03TextCase {
 	o := JGenOpts{MaxAccounts: r.Range(2, 6), MaxDays: r.Range(2, 9), BaseDay: 737000 + r.Intn(1500), SpanDays: Pick(r, []int{5, 40, 100, 400}),
 		Prices: true, Valuation: Pick(r, []string{"CHF", "USD"}), ManyDecimals: r.Chance(1, 3), DropPrices: r.Chance(1, 12), ChainPrices: r.Chance(1, 3), DupPrices: true}
 	j, tags := GenJournal(r, o)
+	// a third of the journals get a quote history (c03Requote: pairs quoted in both directions, repeated values), drawn from
+	// the generator rq so that the other cases stay what they were
+	requoted := rq.Chance(1, 3)
+	if requoted {
+		tags = append(tags, c03Requote(rq, j, o.Valuation)...)
+	}
 	tc := &c03TextCase{Idx: i, J: j, Tags: tags, Fault: "none", Holds: "-"}
 	f := GenBalFlags(r, j, o.Valuation, BalGenOpts{Valued: true, NoFilters: true})
 	f.Map, f.Remap, f.Show, f.Diff, f.CSV, f.Thousands = nil, nil, nil, false, false, false
 	f.Digits = 10
 	f.Val = o.Valuation
+	if requoted {
+		c03QuoteColumns(rq, j, &f)
+	}
 	tc.F = f
 	n := len(j.Dirs)
 
@@ -527,7 +536,7 @@ func runC03Text(c *Ctx, bt *Batch) {
 	var cases []*c03TextCase
 	for i := 0; i < n; i++ {
 		if c.Want(stream, i) {
-			cases = append(cases, c03GenTextCase(c.Rng(stream, i), i))
+			cases = append(cases, c03GenTextCase(c.Rng(stream, i), c.Rng(stream+"+quotes", i), i))
 		}
 	}
 	parallelFor(len(cases), 16, func(k int) {
